@@ -38,6 +38,11 @@ Q_PATH = "resourceManager.lsf.resourceString"
 PY_TYPE = {"str": str, "int": int, "float": float, "bool": bool}
 
 
+# the abstract variables v, w, x of the spec get names that are a prefix / a suffix of one another
+VNAME = {"v": "alpha", "w": "alpha2", "x": "my-alpha"}
+VORDER = ["v", "w", "x"]
+
+
 def sset(xs):
     return "{" + ", ".join('"%s"' % x for x in xs) + "}"
 
@@ -108,10 +113,10 @@ def lit_value(d, kind, litform, is_option):
 
 def ref_value(d, kind):
     if kind == "str":
-        return "%s@%s{%%(%s)s}" % (d["s"], d["l"], d["next"])       # no [..]: that would be an array access
+        return "%s@%s{%%(%s)s}" % (d["s"], d["l"], VNAME[d["next"]])       # no [..]: that would be an array access
     if kind in ("int", "float"):
-        return "%d%%(%s)s" % (d["code"], d["next"])
-    return "%%(%s)s" % d["next"]
+        return "%d%%(%s)s" % (d["code"], VNAME[d["next"]])
+    return "%%(%s)s" % VNAME[d["next"]]
 
 
 def render_def(d, kind, litform):
@@ -171,14 +176,44 @@ def opt_paths(case):
     return {"o": o, "q": Q_PATH}
 
 
+def args_template(case):
+    used = [s for s in VORDER if s in case["args"]]
+    return " ".join("%%(%s)s" % VNAME[s] for s in used) if used else "x"
+
+
+def decode(text, kind):
+    """(slot, layer) pairs recognisable in a real value -- only used to name the class of a mismatch"""
+    import re
+    codes = {10: "builtin", 11: "dg", 12: "ds", 13: "p1g", 14: "p1s", 15: "ug", 16: "us", 17: "comp", 18: "ovd", 19: "ov1", 21: "p2g", 22: "p2s",
+             23: "ov2", 24: "dso", 25: "p1so", 26: "uso", 27: "p2so", 99: "other-component"}
+    slots = {"3": "o", "4": "q", "5": "v", "6": "w", "7": "x", "9": "?"}
+    text = str(text)
+    if kind == "str":
+        return re.findall(r"([oqvwx])@([a-z0-9]+)", text) + ([("?", "other-component")] if "other" in text else [])
+    return [(slots.get(a, "?"), codes.get(int(b), "?")) for a, b in re.findall(r"([345679])(\d\d)", text.split(".")[0])]
+
+
+def order_key(chains, got, kind):
+    """class of a wrong value: the first definition that differs between the specified chain(s) and the real value"""
+    want = [(e["s"], e["l"]) for ch in chains for e in ch]
+    have = decode(got, kind)
+    for i, w in enumerate(want):
+        h = have[i] if i < len(have) else ("?", "?")
+        if tuple(h) != tuple(w):
+            if h[1] in ("p2g", "p2s", "ov2", "dso", "p1so", "uso", "p2so", "other-component"):
+                return "leak:%s:%s" % ("var" if w[0] in VORDER else "opt", h[1])
+            return "order:%s:exp=%s:got=%s" % ("var" if w[0] in VORDER else "opt", w[1], h[1])
+    return "order:%s:exp=%s:got=?" % ("var" if want and want[0][0] in VORDER else "opt", want[0][1] if want else "?")
+
+
 def build_doc(case):
     kind, litform = case["kind"], case["litform"]
     paths = opt_paths(case)
-    c = {"name": "c", "stage": 0, "command": {"executable": "echo", "arguments": "%(v)s" if case["usesV"] else "x"}, "variables": {}}
+    c = {"name": "c", "stage": 0, "command": {"executable": "echo", "arguments": args_template(case)}, "variables": {}}
     # the other component defines everything itself: its values must never show up in c
     other_lit = {"str": "other", "int": 999, "float": 999.5, "bool": True}[kind]
     d = {"name": "d", "stage": 1, "command": {"executable": "echo", "arguments": "y"},
-         "variables": {"v": other_lit, "w": other_lit, "x": other_lit}}
+         "variables": {VNAME[s]: other_lit for s in VORDER}}
     for s in ("o", "q"):
         if s in case["used"]:
             set_path(d, paths[s], "other" if s == "q" else other_lit)
@@ -189,11 +224,12 @@ def build_doc(case):
         s, l = df["s"], df["l"]
         val = render_def(df, kind, litform)
         isvar = s in ("v", "w", "x")
+        nm = VNAME.get(s, s)
         if l in ("ug", "us", "uso"):
             if l == "ug":
-                user["global"][s] = val
+                user["global"][nm] = val
             else:
-                user["stages"].setdefault(0 if l == "us" else 1, {})[s] = val
+                user["stages"].setdefault(0 if l == "us" else 1, {})[nm] = val
             continue
         if l == "comp":
             tgt = c
@@ -208,10 +244,10 @@ def build_doc(case):
             else:
                 tgt = top.setdefault("stages", {}).setdefault(0 if scope == "s" else 1, {})
             if isvar:
-                tgt[s] = val
+                tgt[nm] = val
                 continue
         if isvar:
-            tgt.setdefault("variables", {})[s] = val
+            tgt.setdefault("variables", {})[nm] = val
         else:
             set_path(tgt, paths[s], val)
     if not user["global"]:
@@ -267,22 +303,6 @@ def load(flowir, files, active, validate):
         primitive=True, concrete=FL.FlowIRConcrete(copy.deepcopy(flowir), active, {}), updateInstanceFiles=False, validate=validate)
 
 
-def layer_of_text(text):
-    """best effort: which definition does a real value come from (for the violation key only)"""
-    import re
-    m = re.match(r"^([oqvwx])@([a-z0-9]+)", str(text))
-    if m:
-        return m.group(2)
-    codes = {10: "builtin", 11: "dg", 12: "ds", 13: "p1g", 14: "p1s", 15: "ug", 16: "us", 17: "comp", 18: "ovd", 19: "ov1", 21: "p2g", 22: "p2s",
-             23: "ov2", 24: "dso", 25: "p1so", 26: "uso", 27: "p2so", 99: "other-component"}
-    m = re.match(r"^[34567](\d\d)", str(text))
-    if m and int(m.group(1)) in codes:
-        return codes[int(m.group(1))]
-    if str(text).startswith("other") or str(text).startswith("999"):
-        return "other-component"
-    return "?"
-
-
 def run_case(case, scratch, idx=0, only=None):
     """Execute one emitted state on the real code.  Returns a list of (key, what, replay) mismatches."""
     FL, conf, E = real_modules()
@@ -329,21 +349,22 @@ def run_case(case, scratch, idx=0, only=None):
             except BaseException as e:
                 out.append(("vars:unexpected-exception:%s" % type(e).__name__, "%s: get_component_variables raised %r" % (where, e), rpq))
                 raw = None
+            usedvars = [s for s in VORDER if s in case["used"]]
             if raw is not None:
-                for s in ("v", "w", "x"):
-                    if s not in case["used"]:
-                        continue
+                for s in usedvars:
                     top = exp["tops"][s]
+                    nm = VNAME[s]
                     if top == "none":
-                        if s in raw:
-                            out.append(("leak:var:%s" % layer_of_text(raw[s]), "%s: variable %s should be undefined, real raw value %r" % (where, s, raw[s]), rpq))
+                        if nm in raw:
+                            out.append(("leak:var:%s" % (decode(raw[nm], kind) or [("?", "?")])[0][1],
+                                        "%s: variable %s should be undefined, real raw value %r" % (where, nm, raw[nm]), rpq))
                         continue
                     df = [d for d in case["defs"] if d["s"] == s and d["l"] == top][0]
                     want = render_def(df, kind, litform)
-                    if s not in raw or raw[s] != want or type(raw[s]) is not type(want):
-                        got = raw.get(s, "<missing>")
-                        out.append(("order:var:exp=%s:got=%s" % (top, layer_of_text(got)), "%s: raw value of %s should come from %s (%r), real %r" % (where, s, top, want, got), rpq))
-                extra = set(raw) - {s for s in ("v", "w", "x") if s in case["used"] and exp["tops"][s] != "none"}
+                    if nm not in raw or raw[nm] != want or type(raw[nm]) is not type(want):
+                        got = raw.get(nm, "<missing>")
+                        out.append((order_key([[df]], got, kind), "%s: raw value of %s should come from %s (%r), real %r" % (where, nm, top, want, got), rpq))
+                extra = set(raw) - {VNAME[s] for s in usedvars if exp["tops"][s] != "none"}
                 if extra:
                     out.append(("leak:var:extra-name", "%s: unexpected variables %s" % (where, sorted(extra)), rpq))
             # resolved view
@@ -367,39 +388,46 @@ def run_case(case, scratch, idx=0, only=None):
                 continue
             vals = exp["vals"] if isinstance(exp["vals"], dict) else {}
             rv = r.get("variables", {})
-            if set(rv) != {s for s in vals if s in ("v", "w", "x")}:
-                out.append(("leak:var:extra-name", "%s: resolved variables %s, specification %s" % (where, sorted(rv), sorted(vals)), rpq))
+            if set(rv) != {VNAME[s] for s in vals if s in VNAME}:
+                out.append(("leak:var:extra-name", "%s: resolved variables %s, specification %s" % (where, sorted(rv), sorted(VNAME[s] for s in vals if s in VNAME)), rpq))
             for s, chain in sorted(vals.items()):
-                if s in ("v", "w", "x"):
+                if s in VNAME:
                     want = expected_variable(chain, kind, litform)
-                    got = rv.get(s, "<missing>")
+                    got = rv.get(VNAME[s], "<missing>")
                     if got != want or type(got) is not type(want):
-                        out.append(("order:var:exp=%s:got=%s" % (chain[0]["l"], layer_of_text(got)),
-                                    "%s: resolved variable %s should be %r, real %r" % (where, s, want, got), rpq))
-                    if s == "v" and case["usesV"]:
-                        wa = expected_text(chain, kind, litform)
-                        ga = r["command"]["arguments"]
-                        if ga != wa:
-                            out.append(("order:args:exp=%s:got=%s" % (chain[0]["l"], layer_of_text(ga)), "%s: command line should be %r, real %r" % (where, wa, ga), rpq))
+                        out.append((order_key([chain], got, kind), "%s: resolved variable %s should be %r, real %r" % (where, VNAME[s], want, got), rpq))
                 else:
                     got = get_path(r, paths[s])
                     k = kind if s == "o" else "str"
                     if chain[0]["l"] == "builtin":
                         want = get_path(builtin, paths[s])
                         if got != want:
-                            out.append(("order:opt:exp=builtin:got=%s" % layer_of_text(got), "%s: option %s should keep its built-in value %r, real %r" % (where, paths[s], want, got), rpq))
+                            out.append(("order:opt:exp=builtin:got=%s" % (decode(got, k) or [("?", "?")])[0][1],
+                                        "%s: option %s should keep its built-in value %r, real %r" % (where, paths[s], want, got), rpq))
                         continue
                     text = expected_text(chain, k, litform) if len(chain) > 1 else lit_value(chain[0], k, litform, True)
                     want = typed(text, k)
                     if type(got) is not PY_TYPE[k]:
                         out.append(("typed:%s:wrong-type" % k, "%s: option %s declared %s, real value %r (%s)" % (where, paths[s], k, got, type(got).__name__), rpq))
                     elif got != want:
-                        key = ("typed:bool-false-as-text" if k == "bool" and want is False else "order:opt:exp=%s:got=%s" % (chain[0]["l"], layer_of_text(got)))
+                        if k == "bool" and want is False and len(chain) > 1:
+                            key = "typed:bool-false-as-text"            # the value arrives as text (through a variable)
+                        elif k == "bool":
+                            key = "order:opt:exp=%s:got=?" % chain[0]["l"]
+                        else:
+                            key = order_key([chain], got, k)
                         out.append((key, "%s: option %s should be %r, real %r" % (where, paths[s], want, got), rpq))
+            argslots = [s for s in VORDER if s in case["args"]]
+            if argslots:
+                wa = " ".join(expected_text(vals[s], kind, litform) for s in argslots)
+                ga = r["command"]["arguments"]
+                if ga != wa:
+                    out.append((order_key([vals[s] for s in argslots], ga, kind).replace("order:var", "order:args"),
+                                "%s: command line should be %r, real %r" % (where, wa, ga), rpq))
             for s in exp["undef"]:
                 got = get_path(r, paths[s])
                 if got is not None:
-                    out.append(("leak:opt:%s" % layer_of_text(got), "%s: option %s is defined nowhere, real value %r" % (where, paths[s], got), rpq))
+                    out.append(("leak:opt:%s" % (decode(got, "str") or [("?", "?")])[0][1], "%s: option %s is defined nowhere, real value %r" % (where, paths[s], got), rpq))
     return out
 
 
